@@ -675,8 +675,14 @@ def run_scenario(ctx, env, scenario, force_xproc=False):  # pylint: disable=too-
         observed = [attempt(blank[1].apply, *x) for x in inputs]
     elif transfer == 'setstate':
         observed = [attempt(user.SetState(user.Apply()), blank[1], empty, *x) for x in inputs]
-    else:
+    elif len(inputs) % 3 == 0:
         observed = [attempt(user.Apply().functor(builder_b).preset_state().execute, empty, *x) for x in inputs]
+    else:
+        # the very Functor object that has just been executed with the twin's state (and preset params): a runner keeps its
+        # instructions and executes them again and again, every execution starts from a freshly built actor
+        ctx.count('functor_reused_with_empty_state')
+        head = ({}, empty) if transfer == 'functor-params' else (empty,)
+        observed = [attempt(functor.execute, *head, *x) for x in inputs]
     wanted_blank = [expected(flavour, params_b, [], x) for x in inputs]
     if not case.compare('empty-state', transfer, observed, wanted_blank):
         return
